@@ -130,6 +130,12 @@ def dev_tls_13_keys(secret_list, key_length, hash_fun: hashes.HashAlgorithm):
     server_handshake_key = None
     server_handshake_iv = None
 
+    # In case the key log lacks one of the application traffic secrets
+    client_application_key = None
+    client_application_iv = None
+    server_application_key = None
+    server_application_iv = None
+
     for secret in secret_list:
         if secret.label == "CLIENT_HANDSHAKE_TRAFFIC_SECRET":
             client_handshake_key = HKDFExpand(hash_fun, int.from_bytes(key_length, 'big'), key_info).derive(
